@@ -647,3 +647,29 @@ Lemma combine_all :
 Proof.
   intros E rs. split; [exact (combine_ok_iff E rs)|exact (combine_err E rs)].
 Qed.
+
+(* ---------- one collector over several runs ---------- *)
+Lemma collector_across_runs :
+  forall (R E : Type) (validate : R -> vresult E) (m : mode) (has_collector : bool)
+         (ps : list (list R)) (before after : list (entry E)),
+    run_effect validate m has_collector ps before after ->
+    (m = LogAndContinue -> has_collector = true ->
+     exists app, after = before ++ app /\
+                 Permutation app (flat_map (local_entries validate) ps) /\
+                 Permutation (map (@e_errors E) app) (invalid_errors validate (concat ps)) /\
+                 length after = length before + count_invalid validate (concat ps)) /\
+    ((m = LogAndContinue -> has_collector = false) -> after = before).
+Proof.
+  intros R E validate m hc ps before after H.
+  destruct H as [rs app Hrun Hil | Hpanic].
+  - split.
+    + intros Hm Hhc. subst m hc. exists app. split; [reflexivity|].
+      destruct (log_accounting validate ps rs app Hrun Hil) as [H1 [H2 [H3 _]]].
+      split; [exact H1|]. split; [exact H2|]. rewrite app_length, H3. reflexivity.
+    + intros Hm. rewrite (nothing_collected validate m hc ps rs app Hm Hrun Hil).
+      apply app_nil_r.
+  - split.
+    + intros Hm Hhc. subst m. rewrite run_parts_not_failfast in Hpanic by discriminate.
+      discriminate Hpanic.
+    + intros _. reflexivity.
+Qed.
